@@ -274,7 +274,7 @@ def p_c19(q):
     if q:
         return [mc_router('T'), subF(gen_bfs('F', 2, sample=0.25, **F)), gen_bfs('FC', 3, module='MC_RouterF', extra='MirrorExtra'),
                 subF(gen_sim('F', 8, 8, module='MC_RouterF', extra='MirrorExtra'))]
-    return [mc_router('T'), subF(gen_bfs('F', 2, **F)), gen_bfs('FC', 3, module='MC_RouterF', extra='MirrorExtra'), subF(gen_bfs('F', 3, name='bfsF3', sample=0.004, **F)),
+    return [mc_router('T'), subF(gen_bfs('F', 2, **F)), gen_bfs('FC', 3, module='MC_RouterF', extra='MirrorExtra'), subF(gen_sim('F', 4, 300, name='simF4', seedoff=5, **{k: v for k, v in F.items() if k in ('module', 'extra')})),
             subF(gen_sim('F', 14, 60, module='MC_RouterF', extra='MirrorExtra'))]
 
 
@@ -282,7 +282,7 @@ def p_c09(q):
     F = dict(module='MC_RouterF')
     if q:
         return [mc_router('T'), subF(gen_bfs('F', 2, sample=0.25, **F)), subF(gen_sim('F', 8, 8, module='MC_RouterF'))] + group_stages(2, 'C13', 0.1)[2:]
-    return [mc_router('T'), subF(gen_bfs('F', 2, **F)), subF(gen_bfs('F', 3, name='bfsF3', sample=0.004, **F)), subF(gen_sim('F', 14, 60, module='MC_RouterF'))] + group_stages(2, 'C13', 0.5)[2:]
+    return [mc_router('T'), subF(gen_bfs('F', 2, **F)), subF(gen_sim('F', 4, 300, name='simF4', seedoff=5, **{k: v for k, v in F.items() if k in ('module', 'extra')})), subF(gen_sim('F', 14, 60, module='MC_RouterF'))] + group_stages(2, 'C13', 0.5)[2:]
 
 
 def p_c18(q):
